@@ -62,27 +62,38 @@ def check_predicate(ctx):
             problems.append('guarded operation is %s, expected %s' % (body, want))
         ctx.ob('R9.1-firing-predicate', meth, not problems, where,
                'a rule fires iff flag == -1 (repeated) or flag == time (scheduled) or (rule_step and flag == -2) (dt)', '; '.join(problems))
+    # the frequency table, by evaluation (templates.StrExec) of set_frequency_flag on each kind of argument - whatever the code's shape
+    from ..templates import StrExec, UNKNOWN
+    from .. import simloop
     f = ctx.fn('types:Rule.set_frequency_flag')
     var = f.args.args[1].arg
-    disp = util.string_dispatch(f.body, var)
     problems = []
-    if disp is None:
-        raise AnalysisError('set_frequency_flag: dispatch not found')
-    table, other, node = disp
-    for lit, val in (('start', 0.0), ('repeat', -1.0), ('repeated', -1.0), ('dt', -2.0)):
-        body = table.get(lit)
-        got = [util.const_num(s.value) for s in (body or []) if isinstance(s, ast.Assign) and src(s.targets[0]) == 'self.frequency_flag']
-        if got != [val]:
-            problems.append("'%s' sets flag %s, expected %s" % (lit, got, val))
-    # numeric branch and final raise
-    chain = util.if_chain(node)
-    num = [b for t, b in chain if t is not None and 'float(%s)' % var in src(t)]
-    if not num or [util.stmt_key(s) for s in num[0]] != ['self.frequency_flag = float(%s)' % var]:
-        problems.append('a non-negative number is not stored as the scheduled time')
-    if not (chain[-1][0] is None and any(isinstance(s, ast.Raise) for s in chain[-1][1])):
-        problems.append('an invalid frequency is not rejected')
+    for arg, want in (('start', 0.0), ('repeat', -1.0), ('repeated', -1.0), ('dt', -2.0), (3.7, 3.7), (0.0, 0.0), ('12.5', 12.5), (-4.0, 'error')):
+        ex = StrExec({var: arg}, tracked=set())
+        ex.run(f.body)
+        got = ex.env.get('self.frequency_flag', UNKNOWN)
+        if want == 'error':
+            if not ex.aborted:
+                problems.append('%r is accepted (flag %r): a negative time is not a schedule' % (arg, got))
+        elif ex.aborted:
+            problems.append('%r is rejected (%s)' % (arg, ex.aborted))
+        elif got is UNKNOWN or not isinstance(got, (int, float)) or float(got) != want:
+            problems.append('%r sets the flag to %r, expected %s' % (arg, got, want))
     ctx.ob('R9.1-frequency-table', 'set_frequency_flag', not problems, ctx.loc('types', f),
-           "'start'->0, 'repeat'/'repeated'->-1, 'dt'->-2, t>=0 -> t, otherwise error", '; '.join(problems))
+           "'start'->0, 'repeat'/'repeated'->-1, 'dt'->-2, t>=0 -> t, otherwise error (8 arguments evaluated)", '; '.join(problems[:3]))
+    # scheduled times are compared with the clock exactly (flag == time): they are stored and compared as C doubles - a single-precision
+    # local or attribute on the way rounds a time such as 3.7 to a value no grid point equals
+    sp_ = []
+    for cname in ['Rule'] + ctx.prog.subclasses('Rule'):
+        ci = ctx.prog.classes[cname]
+        for aname, atype in ci.attrs.items():
+            if str(atype).replace(' ', '') in ('float', 'float*'):
+                sp_.append('%s.%s is declared %s' % (cname, aname, atype))
+        for mname, m_ in ci.methods.items():
+            for n_, node_ in simloop.single_precision_decls(m_):
+                sp_.append('%s in %s.%s (%s)' % (n_, cname, mname, ctx.loc(ci.module, node_)))
+    ctx.ob('R9.1-frequency-table', 'precision', not sp_, ctx.loc('types', f),
+           'no attribute or local of the rule classes is declared single precision', '; '.join(sorted(set(sp_))[:3]))
     f = ctx.fn('types:Model.create_rule')
     disp = util.string_dispatch(f.body, 'rule_type')
     problems = []
